@@ -28,8 +28,9 @@ impl TryFrom<f64> for HFloat {
 
     fn try_from(value: f64) -> Result<Self, Self::Error> {
         let hv = f16::from_f64(value);
-        let error = (hv.to_f64() - value).abs();
-        if error < ALLOWED_ERROR {
+        // Only values that survive the f64 -> f16 -> f64 round trip exactly may be inlined;
+        // anything else goes through the constant table so that the literal keeps its value.
+        if hv.to_f64() == value {
             Ok(Self(f16::from_f64(value)))
         } else {
             Err(())
